@@ -170,8 +170,12 @@ def policy_objects(ln, nn):
     if A.NPS[nn] is not None:
         nname, nkw = A.NPS[nn]
         nkw = copy.deepcopy(nkw)
+        # a valid distribution whose floating-point sum is not exactly 1 (nine-digit truncation): a library that
+        # renormalises the caller's list in place changes every entry
         if nname == "Radius":
-            nkw["no_nhood_prob_of_arm"] = [0.5, 0.5]
+            nkw["no_nhood_prob_of_arm"] = [0.333333333, 0.666666666]
+        if nname == "LSHNearest":
+            nkw["no_nhood_prob_of_arm"] = [0.666666666, 0.333333333]
         params = nkw
         npol = getattr(NeighborhoodPolicy, nname)(**nkw)
     return lp, npol, params
